@@ -102,6 +102,11 @@ def gen_cases(tier, seed):
                 if prog["p"] == "Box" and dt.startswith("c"):
                     continue
                 cases.append(dict(kind="prox-scale", prog=prog, c=c, dtype=dt))
+    # step-size histories: iterative solvers keep the step size in one buffer and rescale it in place between calls
+    # (PDHG's acceleration does); the result may depend only on the current value, not on which object carries it
+    for prog in programs(1):
+        for sh in ([2], [2, 1]):
+            cases.append(dict(kind="alpha-hist", prog=prog, shape=sh))
     for n in (2, 3):
         for alpha in (0.5, 2.0):
             cases.append(dict(kind="psd", n=n, alpha=alpha))
@@ -276,6 +281,8 @@ def run_case(case, seed):
     viol = []
     if case["kind"] == "prox-scale":
         return run_prox_scale(case, viol)
+    if case["kind"] == "alpha-hist":
+        return run_alpha_hist(case, viol)
     if case["kind"] == "psd":
         return run_psd(case, viol)
     if case["kind"] == "thresh":
@@ -327,6 +334,68 @@ def run_case(case, seed):
                                      detail="P(P(y)) != P(y) for y=%s" % (list(pt),)))
     return dict(states=evals, transitions=evals, traces=evals, nontrivial=moved > 0,
                 outcome="ok" if not viol else "violation:" + viol[0]["oracle"], viol=viol)
+
+
+ALPHA_EVENTS = [("inplace", 0.5), ("inplace", 2.0), ("float", 0.5), ("float", 2.0), ("newarr", 1.0)]
+
+
+def run_alpha_hist(case, viol):
+    """All words of length 3 over ALPHA_EVENTS applied to ONE prox object: "inplace" overwrites the contents of the
+    step-size array used so far (same object, new value), "newarr" switches to a fresh array, "float" passes a Python
+    float.  After every event the prox is evaluated on a 3^n sub-lattice and certified for the CURRENT value."""
+    prog, shape = case["prog"], case["shape"]
+    site = prog["p"] + ("(" + (prog["kid"]["p"] if "kid" in prog else ",".join(k["p"] for k in prog["kids"])) + ")" if ("kid" in prog or "kids" in prog) else "")
+    stack = uses(prog, "Stack")
+    if stack and uses(prog, "Transpose"):
+        return dict(states=1, transitions=1, nontrivial=False, outcome="skipped", viol=[])
+    real_only = uses(prog, "Box")
+    fft_inside = uses_complex_transform(prog)
+    evals = words = 0
+    distinct = set()
+    for cplx in ((False,) if real_only else (False, True)):
+        if real_only and fft_inside:
+            continue
+        try:
+            _, Gc, sh = build(prog, shape, cplx)
+        except Skip:
+            return dict(states=1, transitions=1, nontrivial=False, outcome="skipped", viol=[])
+        n = dense.prod(sh)
+        vals = CPLX_L if cplx else REAL_L
+        pts = list(itertools.product((vals[1], vals[3], vals[6]), repeat=n)) if n <= 3 else \
+            list(itertools.product((vals[1], vals[6]), repeat=n))
+        ashape = tuple(sh) if stack else ()    # Stack splits a non-scalar step size by block, so it needs one entry per element
+        for word in itertools.product(range(len(ALPHA_EVENTS)), repeat=3):
+            P, _, _ = build(prog, shape, cplx)
+            buf = np.full(ashape, 1.0)
+            words += 1
+            for step, ei in enumerate(word):
+                ev, a = ALPHA_EVENTS[ei]
+                if ev == "inplace":
+                    buf[...] = a
+                    alpha = buf
+                elif ev == "newarr":
+                    buf = np.full(ashape, a)
+                    alpha = buf
+                else:
+                    alpha = a
+                for pt in pts:
+                    y = np.array(pt, dtype=np.complex128 if (cplx or fft_inside) else np.float64).reshape(sh)
+                    x = np.asarray(P(alpha, y.copy()))
+                    evals += 1
+                    if list(x.shape) != list(sh):
+                        d = float("inf")
+                    else:
+                        d = Gc.defect(x, (y - x) / a)
+                        distinct.add((a, x.tobytes()))
+                    if not d <= TOL:
+                        viol.append(dict(oracle="optimality-certificate-step-history",
+                                         key=dict(site=site, when="step size %s" % ("carried in a reused array" if ev != "float" else "given as a float after array steps")),
+                                         detail="events %s, at event %d (alpha=%s): y=%s -> x=%s misses the subdifferential by %.3g; program %s" % (
+                                             [ALPHA_EVENTS[i] for i in word], step, a, np.array2string(y.ravel(), precision=3),
+                                             np.array2string(x.ravel(), precision=4), d, prog)))
+                        return dict(states=words, transitions=evals, traces=words, nontrivial=True,
+                                    outcome="violation:optimality-certificate-step-history", viol=viol)
+    return dict(states=words, transitions=evals, traces=words, nontrivial=len(distinct) > 1, outcome="ok", viol=viol)
 
 
 def uses_complex_transform(prog):
